@@ -385,7 +385,7 @@ def run(tier):
     hcov = tlc("EditsHistGenMC", "EditsHistGenCov.cfg", workers=2, timeout=600, coverage=True, tag="c16histcov")
     tlc_must_pass(hcov, "EditsHistGen (coverage run)")
     htaken = [int(m.group(1)) for m in re.finditer(r"^<Next line .*?>: (\d+):\d+", hcov.out, re.M)]
-    if not htaken or 0 in htaken[:1]:
+    if len(htaken) < 2 or htaken[0] == 0 or htaken[1] == 0:
         tool_failure(f"vacuity: an action of EditsHistGen was never taken: {htaken}")
     hgen = tlc("EditsHistGenMC", hcfg, workers=8, timeout=2400, xmx="8g", tag="c16hist")
     tlc_must_pass(hgen, "EditsHistGen: theorems of EditsHist.tla over the workspace histories")
